@@ -163,7 +163,7 @@ class BADS:
                  provided, plausible_lower_bounds and plausible_upper_bounds need to be specified."""
                 )
             else:
-                x0 = np.full((plausible_lower_bounds.shape), np.nan)
+                x0 = np.full(np.atleast_2d(plausible_lower_bounds).shape, np.nan)
 
         x0 = np.atleast_2d(x0)
         self.D = x0.shape[1]
